@@ -29,6 +29,9 @@ const (
 )
 
 func (t ptype) String() string {
+	if isV(t) {
+		return vOf(t).name
+	}
 	return [...]string{"int", "string", "bool", "*int", "*string", "[]int", "any"}[t]
 }
 
@@ -100,7 +103,7 @@ func lookupMethod(name string) *mspec {
 			return &methodTable[i]
 		}
 	}
-	return nil
+	return lookupVMethod(name) // the methods with struct-typed, validated parameters (valid_types.go)
 }
 
 // ---- recorder ----------------------------------------------------------------------------
@@ -307,6 +310,9 @@ func cancelledErr(m string) *jsonrpc.Error {
 }
 
 func register(s *jsonrpc.Server, r *recorder) error {
+	if err := registerValid(s, r); err != nil {
+		return err
+	}
 	return s.RegisterMethods(
 		jsonrpc.Method{Name: "m0", Handler: func() (any, *jsonrpc.Error) {
 			r.record(nil, "m0")
